@@ -523,3 +523,189 @@ class TableLevelForeignKey:
 
     def ensures(case, old, new, result):
         return new[1][0] is new[1][1]
+
+
+# ------------------------------------------------------------------ table-level FOREIGN KEY records reach their columns
+def fk_record(G, name):
+    return {"name": G.str(name + ".name", NAME), "table": G.str(name + ".table", NAME), "schema": None, "column": G.str(name + ".column", NAME),
+            "on_delete": None, "on_update": None, "deferrable_initially": None}
+
+
+@contract
+class RefColumnsReachTheirColumns:
+    """every FOREIGN KEY (col) REFERENCES record collected at table level ends up under `references` of the column it
+    names - without its `name` entry - and in no other column; a later record for the same column replaces the earlier
+    one; nothing else about any column changes.  Precondition: column names are distinct.
+    SHAPE-BOUNDED: 1..3 columns, 1..2 records."""
+    fn = "output.base_data.BaseData.normalize_ref_columns_in_final_output"
+    props = ["C02"]
+    raises = ("KeyError",)
+    cases = {"%d columns, %d records" % (n, r): dict(n=n, r=r) for n in (1, 2, 3) for r in (1, 2)}
+
+    def build(G, case):
+        cols = [col_done(G, "c%d" % i) for i in range(case["n"])]
+        refs = [fk_record(G, "fk%d" % i) for i in range(case["r"])]
+        return dict(args=[G.obj("BaseData", columns=cols, ref_columns=refs, constraints={}, primary_key=[], unique=[])])
+
+    def requires(case, self_):
+        ok = True
+        for i in range(len(self_.columns)):
+            for j in range(i + 1, len(self_.columns)):
+                ok = ok and self_.columns[i]["name"] != self_.columns[j]["name"]
+        # a record is consumed once: two records naming the same column are two different records
+        return ok
+
+    def spec(case, self_):
+        # stated per column: it references the LAST record that names it; a record that found its column loses `name`
+        for c in self_.columns:
+            for rec in self_.ref_columns:
+                if rec["name"] == c["name"]:
+                    c["references"] = rec
+        names = [c["name"] for c in self_.columns]
+        for rec in self_.ref_columns:
+            if rec["name"] in names:
+                del rec["name"]
+
+
+# ------------------------------------------------------------------ CHECK (...) : the condition's tokens, in order
+from contracts.lib import STRLIT  # noqa: E402
+
+
+@contract
+class PCheckSt:
+    """check_st collects the tokens of the condition in source order: names and string literals verbatim, `a.b` as one
+    item, a parenthesised value list as "(v1,v2)"; the parentheses of the CHECK itself are not items; a continuation
+    (check_st ...) appends to the items collected so far and keeps them"""
+    fn = "dialects.sql.BaseSQL.p_check_st"
+    props = ["C02", "C07"]
+    cases = {"CHECK LP id RP": {}, "CHECK LP id DOT id RP": {}, "CHECK LP pid RP": {}, "check_st id": {}, "check_st STRING": {}, "check_st id STRING": {},
+             "check_st LP id RP": {}, "check_st STRING RP": {}, "check_st id RP": {}}
+
+    def build(G, case):
+        alt = case["_name"]
+        syms = alt.split()
+        vals = {}
+        for i, s in enumerate(syms, 1):
+            if s == "check_st":
+                vals[i] = {"check": G.oseq("items so far", elem=lambda g, n: g.str(n))}
+            elif s == "STRING":
+                vals[i] = G.str("s%d" % i, STRLIT, "'x'")
+            elif s == "pid":
+                vals[i] = [G.str("v1", STRLIT, "'a'"), G.str("v2", STRLIT, "'b'")]
+        return dict(args=[G.parser(), production(G, alt, vals)])
+
+    def spec(case, self_, p):
+        syms = case["_name"].split()
+        if syms[0] == "check_st":
+            res = p[1]
+        else:
+            res = {"check": []}
+        if "DOT" in syms:
+            res["check"].append(p[3] + "." + p[5])
+        else:
+            for i in range(2, len(p)):
+                if syms[i - 1] in ("id", "STRING"):
+                    res["check"].append(p[i])
+                elif syms[i - 1] == "pid":
+                    res["check"].append("(" + p[i][0] + "," + p[i][1] + ")")
+        p[0] = res
+
+
+def check_item(G, name):
+    k = G.choice(name + ".kind", 3)
+    if k == 0:
+        return G.str(name, NAME)
+    if k == 1:
+        return [G.str(name + ".v1", STRLIT, "'a'"), G.str(name + ".v2", STRLIT, "'b'")]
+    # key=value item (from id_equals): the key is a concrete representative, the value is symbolic
+    return {["status", "Qty"][G.choice(name + ".key", 2)]: G.str(name + ".value", NAME)}
+
+
+def item_text(it):
+    if isinstance(it, list):
+        return "(" + it[0] + ", " + it[1] + ")"
+    if isinstance(it, dict):
+        k = list(it.keys())[0]
+        return k + " = " + it[k]
+    return it
+
+
+@contract
+class CheckTextFromItems:
+    """the text of a CHECK condition is its items joined by single blanks, in order: a name / literal verbatim, a value
+    list as "(v1, v2)", a key=value item as "key = value".  SHAPE-BOUNDED: 1..3 items."""
+    fn = "dialects.sql.Column.set_check_in_columm"
+    props = ["C02", "C07"]
+    cases = {"%d items" % n: dict(n=n) for n in (1, 2, 3)}
+
+    def build(G, case):
+        first = G.str("it0", NAME)        # a condition starts with a name (or a function call text)
+        return dict(args=[[first] + [check_item(G, "it%d" % i) for i in range(1, case["n"])]])
+
+    def spec(case, check):
+        text = check[0]
+        for it in check[1:]:
+            text = text + " " + item_text(it)
+        return text
+
+
+@contract
+class PCheckExNamed:
+    """CONSTRAINT name CHECK (...): the record carries the constraint's name and the condition text"""
+    fn = "dialects.sql.Column.p_check_ex"
+    props = ["C02"]
+    cases = {"constraint check_st": {}, "check_st": {}}
+
+    def build(G, case):
+        alt = case["_name"]
+        items = [G.str("it0", NAME), G.str("it1", NAME), G.str("it2", NAME)]
+        if alt == "check_st":
+            return dict(args=[G.parser(), production(G, alt, {1: {"check": items}})])
+        return dict(args=[G.parser(), production(G, alt, {1: {"constraint": {"name": G.str("cname", NAME)}}, 2: {"check": items}})])
+
+    def requires(case, self_, p):
+        if case["_name"] == "check_st":
+            return True
+        return "in_statement" not in p[2]["check"][0]
+
+    def spec(case, self_, p):
+        if case["_name"] == "check_st":
+            p[0] = p[1]
+        else:
+            it = p[2]["check"]
+            p[0] = {"check": {"constraint_name": p[1]["constraint"]["name"], "statement": it[0] + " " + it[1] + " " + it[2]}}
+
+
+@contract
+class TableLevelCheck:
+    """expr COMMA check_ex: a table-level CHECK is appended to the table's checks (an unnamed one as its condition text
+    with constraint_name None, a named one with its name - and also recorded under constraints.checks); every earlier
+    column, check, clause and constraint is kept, in order"""
+    fn = "dialects.sql.BaseSQL.p_expression_table"
+    props = ["C02"]
+    observable = "result"
+    cases = {"%s CHECK [constraints: %s]" % (("named" if nm else "unnamed"), had): dict(named=nm, had=had) for nm in (False, True) for had in ("none", "other", "same")}
+    loops = {}
+
+    def build(G, case):
+        # table_state's "other" holds checks (= the same kind here), its "same" holds keys / uniques / references (= other kinds)
+        t = table_state(G, {"none": "none", "other": "same", "same": "other"}[case["had"]])
+        t["checks"] = G.oseq("checks so far", elem=lambda g, n: {"statement": g.str(n + ".s"), "constraint_name": None})
+        if case["named"]:
+            chk = {"check": {"constraint_name": G.str("cname", NAME), "statement": G.str("condition text")}}
+        else:
+            chk = {"check": [G.str("it0", NAME), G.str("it1", NAME), G.str("it2", NAME)]}
+        return dict(args=[G.parser(), production(G, "expr COMMA check_ex", {1: t, 3: chk})])
+
+    def spec(case, self_, p):
+        p[0] = p[1]
+        t = p[0]
+        c = p[3]["check"]
+        if case["named"]:
+            add_constraint(t, "checks", c, case["had"])
+            t["checks"].append(c)
+        else:
+            t["checks"].append({"constraint_name": None, "statement": c[0] + " " + c[1] + " " + c[2]})
+
+    def ensures(case, old, new, result):
+        return new[1][0] is new[1][1]
